@@ -65,7 +65,7 @@ class CHKFileURI(_BaseURI):
     BASE_STRING=b'URI:CHK:'
     STRING_RE=re.compile(b'^URI:CHK:'+BASE32STR_128bits+b':'+
                          BASE32STR_256bits+b':'+NUMBER+b':'+NUMBER+b':'+NUMBER+
-                         b'$')
+                         b'\\Z')
 
     def __init__(self, key, uri_extension_hash, needed_shares, total_shares,
                  size):
@@ -124,7 +124,7 @@ class CHKFileVerifierURI(_BaseURI):
     BASE_STRING=b'URI:CHK-Verifier:'
     STRING_RE=re.compile(b'^URI:CHK-Verifier:'+BASE32STR_128bits+b':'+
                          BASE32STR_256bits+b':'+NUMBER+b':'+NUMBER+b':'+NUMBER+
-                         b'$')
+                         b'\\Z')
 
     def __init__(self, storage_index, uri_extension_hash,
                  needed_shares, total_shares, size):
@@ -172,7 +172,7 @@ class CHKFileVerifierURI(_BaseURI):
 class LiteralFileURI(_BaseURI):
 
     BASE_STRING=b'URI:LIT:'
-    STRING_RE=re.compile(b'^URI:LIT:'+base32.BASE32STR_anybytes+b'$')
+    STRING_RE=re.compile(b'^URI:LIT:'+base32.BASE32STR_anybytes+b'\\Z')
 
     def __init__(self, data=None):
         if data is not None:
@@ -214,7 +214,7 @@ class WriteableSSKFileURI(_BaseURI):
 
     BASE_STRING=b'URI:SSK:'
     STRING_RE=re.compile(b'^'+BASE_STRING+BASE32STR_128bits+b':'+
-                         BASE32STR_256bits+b'$')
+                         BASE32STR_256bits+b'\\Z')
 
     def __init__(self, writekey, fingerprint):
         self.writekey = writekey
@@ -262,7 +262,7 @@ class WriteableSSKFileURI(_BaseURI):
 class ReadonlySSKFileURI(_BaseURI):
 
     BASE_STRING=b'URI:SSK-RO:'
-    STRING_RE=re.compile(b'^URI:SSK-RO:'+BASE32STR_128bits+b':'+BASE32STR_256bits+b'$')
+    STRING_RE=re.compile(b'^URI:SSK-RO:'+BASE32STR_128bits+b':'+BASE32STR_256bits+b'\\Z')
 
     def __init__(self, readkey, fingerprint):
         self.readkey = readkey
@@ -309,7 +309,7 @@ class ReadonlySSKFileURI(_BaseURI):
 class SSKVerifierURI(_BaseURI):
 
     BASE_STRING=b'URI:SSK-Verifier:'
-    STRING_RE=re.compile(b'^'+BASE_STRING+BASE32STR_128bits+b':'+BASE32STR_256bits+b'$')
+    STRING_RE=re.compile(b'^'+BASE_STRING+BASE32STR_128bits+b':'+BASE32STR_256bits+b'\\Z')
 
     def __init__(self, storage_index, fingerprint):
         assert len(storage_index) == 16
@@ -346,7 +346,7 @@ class SSKVerifierURI(_BaseURI):
 class WriteableMDMFFileURI(_BaseURI):
 
     BASE_STRING=b'URI:MDMF:'
-    STRING_RE=re.compile(b'^'+BASE_STRING+BASE32STR_128bits+b':'+BASE32STR_256bits+b'(:|$)')
+    STRING_RE=re.compile(b'^'+BASE_STRING+BASE32STR_128bits+b':'+BASE32STR_256bits+b'(:|\\Z)')
 
     def __init__(self, writekey, fingerprint):
         self.writekey = writekey
@@ -395,7 +395,7 @@ class WriteableMDMFFileURI(_BaseURI):
 class ReadonlyMDMFFileURI(_BaseURI):
 
     BASE_STRING=b'URI:MDMF-RO:'
-    STRING_RE=re.compile(b'^' +BASE_STRING+BASE32STR_128bits+b':'+BASE32STR_256bits+b'(:|$)')
+    STRING_RE=re.compile(b'^' +BASE_STRING+BASE32STR_128bits+b':'+BASE32STR_256bits+b'(:|\\Z)')
 
     def __init__(self, readkey, fingerprint):
         self.readkey = readkey
@@ -444,7 +444,7 @@ class ReadonlyMDMFFileURI(_BaseURI):
 class MDMFVerifierURI(_BaseURI):
 
     BASE_STRING=b'URI:MDMF-Verifier:'
-    STRING_RE=re.compile(b'^'+BASE_STRING+BASE32STR_128bits+b':'+BASE32STR_256bits+b'(:|$)')
+    STRING_RE=re.compile(b'^'+BASE_STRING+BASE32STR_128bits+b':'+BASE32STR_256bits+b'(:|\\Z)')
 
     def __init__(self, storage_index, fingerprint):
         assert len(storage_index) == 16
